@@ -54,6 +54,13 @@ func RetryPolicy(t *Truth) *Report {
 						}
 					}
 				} else {
+					// lower bound: the ticker arms the next interval only when the previous tick has been taken, so two
+					// consecutive attempts START at least one back-off interval apart; the smallest interval of the
+					// policy is 0.5 x 500 ms
+					if sg := atts[i+1].Start.Sub(a.Start); sg < 240*time.Millisecond {
+						rep.violate("retry-policy", "retry-without-backoff", map[string]any{"attempt": describe(r, a), "next": describe(r, atts[i+1]), "starts_apart": sg.String(), "attempts_in_this_flush": len(atts)})
+						break
+					}
 					gap := atts[i+1].Start.Sub(a.End)
 					// exponential policy: initial 500ms, multiplier 1.5, randomisation 0.5, max 60s:
 					// the n-th gap lies in [0.5, 1.5] x min(500ms x 1.5^n, 60s); the ticker measures from
